@@ -388,3 +388,7 @@ func (m *Model) runSingletonsAndPurity(s *Sink, rule string) {
 	}
 	s.OK(rule, "evaluator|operand objects are never written", "-", "checked the write-effect summary of every render-reachable evaluator function for writes through object.Object parameters")
 }
+
+// RunSingletons: the identity-comparison and operand-purity clauses of R-OPTABLE on their own (C20: a boolean receiver
+// or argument is converted by its value, not by identity with the TRUE singleton).
+func (m *Model) RunSingletons(s *Sink, rule string) { m.runSingletonsAndPurity(s, rule) }
